@@ -30,6 +30,8 @@ type WJob struct {
 	// Settle: wait this many milliseconds after Exec returned (lets fire-and-forget goroutines run
 	// so that a panic in them is attributed to this job)
 	SettleMs int `json:"settle_ms,omitempty"`
+	// Reexec > 1: the same Query object is executed this many times
+	Reexec int `json:"reexec,omitempty"`
 	// batch (C13)
 	Batch *C13Batch `json:"batch,omitempty"`
 }
@@ -101,7 +103,12 @@ func runJob(job *WJob) WResult {
 		}
 	}
 	injReset(job.FailAt, job.Panic)
-	o := Run(doc, job.SQL, job.Opts)
+	var o Out
+	if job.Reexec > 1 {
+		o = RunN(doc, job.SQL, job.Opts, job.Reexec)
+	} else {
+		o = Run(doc, job.SQL, job.Opts)
+	}
 	if job.SettleMs > 0 {
 		time.Sleep(time.Duration(job.SettleMs) * time.Millisecond)
 	}
